@@ -81,33 +81,40 @@ def trimZeros (t : Bytes) : Bytes :=
 /-- number of decimal digits of `n > 0` -/
 def ndigits (n : Nat) : Nat := (Conv.digits n).length
 
-/-- `"%.17Lg"` of an integer-valued `n ≥ 10^17` (exponent form, trailing zeros removed) -/
-def fmtG17 (n : Nat) : Bytes :=
-  let k := ndigits n
-  let D0 := roundHalfEven n (10 ^ (k - 17))
-  let (D, X) := if D0 ≥ 10 ^ 17 then (D0 / 10, k) else (D0, k - 1)
-  let ds := Conv.digits D                                   -- 17 digits
-  let frac := (ds.drop 1).reverse.dropWhile (· = 48) |>.reverse
+/-- mantissa digits `D` (17 significant digits) and decimal exponent `X` in the form `d.ddde+XX`, trailing zeros removed -/
+def g17Core (D X : Nat) : Bytes :=
+  let ds := Conv.digits D
+  let frac := ((ds.drop 1).reverse.dropWhile (· = 48)).reverse
   let mant := if frac.isEmpty then ds.take 1 else ds.take 1 ++ [46] ++ frac
   let xs := Conv.digits X
   mant ++ [101, 43] ++ (if xs.length < 2 then 48 :: xs else xs)
 
+/-- `"%.17Lg"` of an integer-valued `n ≥ 10^17` (exponent form, trailing zeros removed) -/
+def fmtG17 (n : Nat) : Bytes :=
+  let k := ndigits n
+  let D0 := roundHalfEven n (10 ^ (k - 17))
+  if D0 ≥ 10 ^ 17 then g17Core (D0 / 10) k else g17Core D0 (k - 1)
+
 def numbufSize : Nat := Gen.IWNUMBUF_SIZE
+
+def sgn (neg : Bool) : Bytes := if neg then [45] else []
+
+/-- finite value: `N` = |x|·10^8 rounded half-even, `big` = |x| when it is an integer too long for the plain form -/
+def ftoaFinite (neg : Bool) (N big : Nat) : Bytes :=
+  let plain := sgn neg ++ Conv.digits (N / 10 ^ 8) ++ [46] ++ pad8 (N % 10 ^ 8)
+  if plain.length < numbufSize then trimZeros plain else sgn neg ++ fmtG17 big
 
 /-- text that `iwjson_ftoa` leaves in the buffer for the double with bit pattern `bits` -/
 def ftoa (bits : Nat) : Bytes :=
   let neg := bits / 2 ^ 63 % 2 = 1
   let ex := bits / 2 ^ 52 % 2048
   let man := bits % 2 ^ 52
-  let sgn : Bytes := if neg then [45] else []
-  if ex = 2047 then sgn ++ (if man = 0 then [105, 110, 102] else [110, 97, 110])
+  if ex = 2047 then sgn neg ++ (if man = 0 then [105, 110, 102] else [110, 97, 110])
   else
     let m := if ex = 0 then man else man + 2 ^ 52
     let e2 : Int := ((if ex = 0 then 1 else ex : Nat) : Int) - 1075
     let N : Nat := if e2 ≥ 0 then m * 2 ^ e2.toNat * 10 ^ 8 else roundHalfEven (m * 10 ^ 8) (2 ^ (-e2).toNat)
-    let plain := sgn ++ Conv.digits (N / 10 ^ 8) ++ [46] ++ pad8 (N % 10 ^ 8)
-    if plain.length < numbufSize then trimZeros plain
-    else sgn ++ fmtG17 (m * 2 ^ e2.toNat)
+    ftoaFinite neg N (m * 2 ^ e2.toNat)
 
 /-! ### `_jbl_node_as_json` -/
 
